@@ -163,6 +163,9 @@ type SVal struct {
 	LV   bool    // spec evaluation: denotes the (unread) contents of Loc
 	// interface values made from a pointer remember where it points (for `modifies pointee(x)`)
 	Pointee *Loc
+	// spec-only slice values that stand for the bytes of a string (bytesof(s)): the contents
+	// as an SMT array, used when the value is passed to a pure function
+	Row string
 }
 
 func leaf(t types.Type, term string) *SVal { return &SVal{T: t, Term: term} }
